@@ -9,6 +9,8 @@ SPEC = {
         {"name": "kdf", "pkg": NT, "kind": "rapid", "run": "^TestVerifC08Kdf$",
          "quick": {"checks": 800, "shards": 1, "timeout": 300},
          "thorough": {"checks": 10000, "shards": 4, "timeout": 1500}},
+        {"name": "concurrent", "pkg": NT, "kind": "plain", "run": "^TestVerifC08Concurrent$",
+         "quick": {"timeout": 300}, "thorough": {"timeout": 900, "race": True}},
     ],
 }
 
